@@ -107,7 +107,7 @@ E1_ASSUMPTIONS = [
 ]
 
 def _e1(check, test, quick=480, thorough=16000, pkg="pe1"):
-    return {"name": check, "pkg": pkg, "test": test, "quick": rp(quick, 16, timeout=900, shrinktime="60s"), "thorough": rp(thorough, 16, timeout=3000, shrinktime="300s")}
+    return {"name": check, "pkg": pkg, "test": test, "quick": rp(quick, 16, timeout=900, shrinktime="30s"), "thorough": rp(thorough, 16, timeout=3000, shrinktime="300s")}
 
 def _e1_entry(title, check, test, rule_extra, nt):
     return {
@@ -168,3 +168,14 @@ CHECKS["C09"]["subchecks"] = list(_p09["MAIN"]["subchecks"]) + [_e1("c09-reachab
 CHECKS["C09"]["assumptions"] = list(_p09["MAIN"]["assumptions"]) + E1_ASSUMPTIONS
 CHECKS["C09"]["rule"] += (" Reachability (c09-reachability): shared E1 generator; the user additionally patches status.*.nextStepIndex with any of {MinInt32,-1,0,1..6,100,MaxInt32} at any time, edits steps, scales, "
                           "disables / enables / deletes; every Reconcile, event handler and webhook call runs under recover: a panic is a violation with its stack.")
+
+
+CHECKS["C05"] = _e1_entry("Every exit path restores the user's configuration.", "c05-exit-restore", "TestC05ExitRestore",
+    "user actions weighted towards rollback / disable / delete (the exit is whatever the drawn history contains, taken at a drawn point); after the fair completion reaches the terminal state the final store is compared with the configuration recorded before the release: no canary Service / Ingress / Deployment, no BatchRelease, no in-progressing / control-info / strategy annotations, workload un-paused with partition absent/0 and the user's strategy, stable Service selector, stable Ingress and HTTPRoute traffic shares as the user wrote them, every pod on the desired revision and ready.",
+    "the release reached step >= 1 and the run reached the terminal state.")
+
+CHECKS["C06"] = _e1_entry("Crashes and API errors never corrupt a rollout.", "c06-fault-enumeration", "TestC06FaultEnumeration",
+    "per case a baseline (scenario + generated prefix + fair completion, fault-free, W controller writes, K controller calls) and then one re-run per injected fault: crash after controller write i (the running reconcile is aborted, every later call of it fails, all controllers restart with empty in-memory state and re-listed queues) for every i (quick: at most 120 evenly spread), API error before call j, conflict before write i, lost response after write i (quick: 25 evenly spread indices each; thorough: every index), plus one random multi-fault run. Oracles per faulty run: all monitors of C01-C05/C09/C10/C18 hold on every prefix, the run reaches the terminal state, the cluster is clean, and the normalised final store equals the baseline's.",
+    "the fault actually fired (index within the faulty run's own call sequence).")
+CHECKS["C06"]["level"] = "fault_enumeration"
+CHECKS["C06"]["subchecks"] = [{"name": "c06-fault-enumeration", "pkg": "p06", "test": "TestC06FaultEnumeration", "quick": rp(16, 16, timeout=1200, shrinktime="120s"), "thorough": rp(160, 16, timeout=6000, shrinktime="600s")}]
